@@ -19,6 +19,11 @@ ARG   an argument position (the extent `e`, an array capacity `cap`, or a second
    optional "history": [{"header": ..., "stmts": ...}...]  definitions read EARLIER IN THE SAME PROCESS (each from a namespace
    directory of its own), in this order, before the definition of the case itself; "seq": how the sequence was built
 
+   optional "route": "ctor" - the definition is not written to a file but built through the PUBLIC CONSTRUCTORS of the model classes
+   (Field / PaddingField / Constant, StructureType / UnionType / DelimitedType / ServiceType), the way a tool that synthesises types
+   does; every name then reaches the library exactly as given (an attribute name with a line feed in it cannot be written in DSDL
+   text, a file or directory name with one can exist); optional "entry": "files" - read with `read_files` instead of `read_namespace`
+
 Outcome {"res": "ok" | "invalid" | "internal" | "foreign:<cls>", "soft_cls": ..., "history": [res of every earlier read]}
 
 The case is rendered to files (target root namespace directory named after header.ns[0]; referenced definitions are
@@ -467,6 +472,49 @@ BAD_NAMES = ["bool", "Bool", "BOOL", "true", "False", "truncated", "Saturated", 
              "int", "INT16", "int999", "q1_2", "uq16_8", "Q1_2", "UQ0_0", "float", "float16", "Float1", "com1", "COM9", "lpt0", "LPT7", "_a_", "__", "_A1_", "___"]
 
 
+# Characters that are no name characters but that careless validation lets through at the edges of a name: line terminators (what
+# `$`, `str.splitlines`, `str.strip`, text-mode file reading treat specially), blanks, other control characters.
+LINE_TERMINATORS = ["\n", "\r", "\r\n", "\x0b", "\x0c", "\x1c", "\x1d", "\x1e", "\x85", "\u2028", "\u2029"]
+BLANKS = [" ", "\t", "\u00a0", "\u2003"]
+CONTROLS = ["\x00", "\x01", "\x1b", "\x1f", "\x7f", "\u200b", "\ufeff"]
+HOSTILE_BASES = ["value", "a", "T", "sub", "Msg", "x1", "_g", "node", "Abc", "true", "optional", "uint8", "q1_2"]  # the last four: reserved without the addition
+
+
+def hostile_class(ch: str) -> str:
+    return "line-terminator" if ch in "".join(LINE_TERMINATORS) else "blank" if ch in "".join(BLANKS) else "control"
+
+
+def g_hostile_name(rng, base: typing.Optional[str] = None, fs: bool = True) -> str:
+    """A name that is well-formed except for control / blank / line-terminator characters at its edge (or inside)."""
+    base = base if base is not None and rng.random() < 0.5 else rng.choice(HOSTILE_BASES)
+    h = rng.choice(LINE_TERMINATORS * 3 + BLANKS + CONTROLS)
+    if fs and "\x00" in h:
+        h = "\n"  # no file name holds a NUL
+    pos = rng.choice(["trailing", "trailing", "trailing", "trailing", "leading", "embedded", "trailing-twice", "both-ends"])
+    if pos == "trailing":
+        return base + h
+    if pos == "leading":
+        return h + base
+    if pos == "embedded":
+        at = rng.randint(1, max(1, len(base) - 1))
+        return base[:at] + h + base[at:]
+    if pos == "trailing-twice":
+        return base + h + rng.choice([h, "\n", h])
+    return h + base + h
+
+
+def hostile_features(name: str) -> typing.Iterator[str]:
+    odd = [i for i, ch in enumerate(name) if ch not in ASCII_LETTERS + DIGITS + "_" and (ord(ch) < 0x21 or ch in "".join(LINE_TERMINATORS + BLANKS + CONTROLS))]
+    if not odd:
+        return
+    core = [i for i in range(len(name)) if i not in odd]
+    for i in odd:
+        where = "only" if not core else "leading" if i < core[0] else "trailing" if i > core[-1] else "embedded"
+        if where == "trailing" and len([j for j in odd if j > core[-1]]) == 1:
+            where = "trailing-single"
+        yield "%s:%s:%s" % (hostile_class(name[i]), "U+%04X" % ord(name[i]), where)
+
+
 def g_scalar(rng, allow_comp=True) -> list:
     r = rng.random()
     if r < 0.1:
@@ -555,16 +603,19 @@ def _attr_idx(case, kinds=("field", "const", "padding")):
 def violate(rng, case: dict) -> str:
     """Apply one random rule violation or boundary move to the abstract definition (the oracle re-evaluates the rules on the
     result, so a mutator does not have to know whether the result is invalid)."""
-    h = case["header"]
-    st = case["stmts"]
-    schemas = split_schemas(st)
-    service = len(schemas) == 2
-    k = rng.choice(["width", "width", "capacity", "attr-name", "attr-name", "dup-name", "named-void", "union-arity", "pad-in-union", "void-array",
+    return violate_with(rng, case, rng.choice(["width", "width", "capacity", "attr-name", "attr-name", "dup-name", "named-void", "union-arity", "pad-in-union", "void-array",
                     "utf8-place", "byte-place", "deprecated-dep", "mode-both", "mode-none", "mode-twice", "extent-early", "union-late", "union-twice",
                     "deprecated-late", "deprecated-twice", "deprecated-response", "two-markers", "extent-odd", "extent-boundary", "extent-boundary",
                     "version", "version", "port", "port", "port-regulated", "port-regulated", "long-name", "type-name", "ns-name", "service-field",
                     "const-type", "kelvin", "extent-value", "extent-value", "extent-value", "capacity-value", "capacity-value", "directive-arg",
-                    "capacity-boundary", "capacity-boundary", "capacity-boundary"])
+                    "capacity-boundary", "capacity-boundary", "capacity-boundary", "ctl-name", "ctl-name", "ctl-name"]))
+
+
+def violate_with(rng, case: dict, k: str) -> str:
+    h = case["header"]
+    st = case["stmts"]
+    schemas = split_schemas(st)
+    service = len(schemas) == 2
     fidx = _attr_idx(case, ("field",))
     aidx = _attr_idx(case)
     if k == "width" and fidx:
@@ -760,6 +811,27 @@ def violate(rng, case: dict) -> str:
                     fields = [attr_type(a) for a in sch if is_attr(a) and a[0] != "const"]
                     sch[ms[0]] = ["extent", longest(fields, union) + 8 * rng.choice([0, 0, 1])]
             case["stmts"] = _join(schemas)
+    elif k == "ctl-name":
+        # a name that is well-formed except for a line terminator / blank / control character at its edge or inside, in a position
+        # whose characters reach the library as they are: the file name (type name), a directory name (root or nested namespace) -
+        # and, when the definition is built through the constructors, an attribute name as well
+        ctor = case.get("route") == "ctor"
+        named = [i for i in aidx if st[i][0] != "padding"]
+        pos = rng.choice(["short", "short", "sub", "sub", "root"] + (["attr", "attr", "attr"] if ctor and named else []))
+        if pos == "attr":
+            i = rng.choice(named)
+            st[i][2] = g_hostile_name(rng, st[i][2], fs=False)
+        elif pos == "short":
+            h["short"] = g_hostile_name(rng, h["short"], fs=not ctor)
+        elif pos == "root":
+            h["ns"][0] = g_hostile_name(rng, h["ns"][0], fs=not ctor)
+        else:
+            j = rng.randrange(1, len(h["ns"]) + 1)
+            nm = g_hostile_name(rng, h["ns"][j] if j < len(h["ns"]) else None, fs=not ctor)
+            if j == len(h["ns"]) or rng.random() < 0.3:
+                h["ns"].insert(j, nm)
+            else:
+                h["ns"][j] = nm
     elif k == "directive-arg":
         # @sealed / @union / @deprecated take no expression, whatever its value
         ds = [i for i, s in enumerate(st) if s[0] in ("sealed", "union", "deprecated") and len(s) == 1]
@@ -815,7 +887,7 @@ def g_twin_names(rng) -> typing.Tuple[str, str, str]:
             twin = rng.choice([w, w.upper(), w.lower(), w.title(), w.swapcase()])
         elif how == "invisible":
             base = pre + rng.choice(["k", "Value", "n1"]) + suf
-            z = rng.choice(INVISIBLE)
+            z = rng.choice(INVISIBLE + ["\n", "\n", "\r", "\t", "\x0c", "\x85", "\u2028"])  # ... or a line terminator / control character
             twin = rng.choice([base + z, z + base, base[:1] + z + base[1:]])
         else:
             ch, t = rng.choice(confusables()[how])
@@ -910,6 +982,103 @@ def _join(schemas):
     return out
 
 
+# ------------------------------------------------------------------------------------------------- constructor route
+
+CTOR_MUTATORS = ["ctl-name", "ctl-name", "ctl-name", "ctl-name", "attr-name", "attr-name", "type-name", "ns-name", "kelvin", "dup-name", "version", "long-name"]
+
+
+def ctor_normalise(case: dict) -> None:
+    """Bring the statements into the one order the constructors can express (flags first, serialization mode last) and drop what they
+    cannot (references to other definitions); the rules about statement ORDER are the business of the text route."""
+    schemas = split_schemas(case["stmts"])[:2]
+    out = []
+    deprecated = any(s[0] == "deprecated" for s in case["stmts"])
+    for n, sc in enumerate(schemas):
+        attrs = [s for s in sc if is_attr(s)]
+        for a in attrs:
+            t = attr_type(a)
+            if t[1][0] == "comp":
+                a[1] = ["s", ["uint", 8, "s"]]
+        modes = [s for s in sc if s[0] in ("sealed", "extent")][:1] or [["sealed"]]
+        if modes[0][0] == "extent":
+            union = any(s[0] == "union" for s in sc)
+            need = longest([attr_type(a) for a in attrs if a[0] != "const"], union)
+            if not isinstance(modes[0][1], int) or modes[0][1] < need:
+                modes = [["extent", need]]
+        out.append(([["deprecated"]] if deprecated and n == 0 else []) + ([["union"]] if any(s[0] == "union" for s in sc) else []) + attrs + modes)
+    case["stmts"] = _join(out)
+
+
+def ctor_expressible(case: dict) -> bool:
+    c = {"header": case["header"], "stmts": copy.deepcopy(case["stmts"])}
+    ctor_normalise(c)
+    return c["stmts"] == case["stmts"] and not any(is_attr(s) and s[0] != "padding" and s[1][0] != "s" and not isinstance(s[1][2], int) for s in case["stmts"])
+
+
+def g_ctor_case(rng) -> dict:
+    c = g_valid(rng)
+    c["route"] = "ctor"
+    c["violations"] = []
+    h = c["header"]
+    if h["port"] is not None:
+        h["allow"] = True  # the regulated ranges are a rule of the front end; the constructors know the full port-ID range only
+    ctor_normalise(c)
+    for _ in range(rng.choice([0, 1, 1, 1, 2])):
+        c["violations"].append(violate_with(rng, c, rng.choice(CTOR_MUTATORS)))
+    ctor_normalise(c)
+    return c
+
+
+def build_by_constructors(pydsdl, case: dict):
+    """The definition built through the public constructors, the way DataTypeBuilder does it."""
+    h = case["header"]
+    cm = {"s": pydsdl.PrimitiveType.CastMode.SATURATED, "t": pydsdl.PrimitiveType.CastMode.TRUNCATED}
+
+    def scalar(sc):
+        k = sc[0]
+        if k == "bool":
+            return pydsdl.BooleanType()
+        if k == "byte":
+            return pydsdl.ByteType()
+        if k == "utf8":
+            return pydsdl.UTF8Type()
+        if k == "void":
+            return pydsdl.VoidType(sc[1])
+        cls = {"uint": pydsdl.UnsignedIntegerType, "int": pydsdl.SignedIntegerType, "float": pydsdl.FloatType}[k]
+        return cls(sc[1], cm[sc[2]])
+
+    def ty(t):
+        if t[0] == "s":
+            return scalar(t[1])
+        return (pydsdl.FixedLengthArrayType if t[0] == "fa" else pydsdl.VariableLengthArrayType)(scalar(t[1]), t[2])
+
+    full = ".".join(h["ns"] + [h["short"]])
+    path = Path("/".join(h["ns"])) / ("%s.%d.%d.dsdl" % (h["short"], h["major"], h["minor"]))
+    version = pydsdl.Version(h["major"], h["minor"])
+    schemas = split_schemas(case["stmts"])
+    service = len(schemas) == 2
+    deprecated = any(s[0] == "deprecated" for s in case["stmts"])
+
+    def composite(sc, name, port, parent):
+        attrs = []
+        for s in sc:
+            if s[0] == "field":
+                attrs.append(pydsdl.Field(ty(s[1]), s[2]))
+            elif s[0] == "padding":
+                attrs.append(pydsdl.PaddingField(pydsdl.VoidType(s[1])))
+            elif s[0] == "const":
+                attrs.append(pydsdl.Constant(ty(s[1]), s[2], pydsdl.Boolean(False) if s[1] == ["s", ["bool"]] else pydsdl.Rational(0)))
+        cls = pydsdl.UnionType if any(s[0] == "union" for s in sc) else pydsdl.StructureType
+        inner = cls(name=name, version=version, attributes=attrs, deprecated=deprecated, fixed_port_id=port, source_file_path=path, has_parent_service=parent)
+        mode = next(s for s in sc if s[0] in ("sealed", "extent"))
+        return pydsdl.DelimitedType(inner, extent=mode[1]) if mode[0] == "extent" else inner
+
+    if not service:
+        return composite(schemas[0], full, h["port"], False)
+    return pydsdl.ServiceType(request=composite(schemas[0], full + ".Request", None, True), response=composite(schemas[1], full + ".Response", None, True),
+                              fixed_port_id=h["port"])
+
+
 # ------------------------------------------------------------------------------------------------- the suite
 
 ALWAYS_REJECTED = ["extent", 1]  # the model's stand-in for a statement whose argument no handler accepts (1 bit is never a legal extent)
@@ -958,10 +1127,17 @@ class RulesSuite(common.Suite):
                 if fs_safe(c) and all(fs_safe(x) for x in c["history"]) and not kept_out(c):
                     out.append(c)
                 continue
+            if rng.random() < 0.12:
+                c = g_ctor_case(rng)
+                if ctor_expressible(c) and not any("." in x for x in c["header"]["ns"] + [c["header"]["short"]]):
+                    out.append(c)
+                continue
             c = g_valid(rng)
             c["violations"] = []
             for _ in range(rng.choice([0, 0, 1, 1, 1, 2, 3])):
                 c["violations"].append(violate(rng, c))
+            if rng.random() < 0.15:
+                c["entry"] = "files"
             if fs_safe(c):
                 out.append(c)
         return out
@@ -1005,7 +1181,25 @@ class RulesSuite(common.Suite):
             out["history"] = earlier
         return out
 
+    def read_ctor(self, pydsdl, case):
+        if not ctor_expressible(case):
+            return {"res": "foreign:harness:not-expressible-by-constructors"}
+        try:
+            t = build_by_constructors(pydsdl, case)
+            h = case["header"]
+            if t.full_name != ".".join(h["ns"] + [h["short"]]):
+                return {"res": "foreign:other-name", "soft_msg": ascii(t.full_name)[:200]}
+            return {"res": "ok"}
+        except pydsdl.InvalidDefinitionError as ex:
+            return {"res": "invalid", "soft_cls": type(ex).__name__, "soft_msg": str(ex.text)[:160]}
+        except pydsdl.InternalError as ex:
+            return {"res": "internal", "soft_msg": str(ex)[:160]}
+        except Exception as ex:  # pylint: disable=broad-except
+            return {"res": "foreign:" + type(ex).__name__, "soft_msg": str(ex)[:200]}
+
     def read_one(self, pydsdl, case, also_as_dependency):
+        if case.get("route") == "ctor":
+            return self.read_ctor(pydsdl, case)
         tmp = Path(tempfile.mkdtemp(prefix="vrules"))
         try:
             h = case["header"]
@@ -1017,7 +1211,10 @@ class RulesSuite(common.Suite):
                 (tmp / "dep" / (dep_name(sc) + ".1.0.dsdl")).write_text(dep_text(sc))
             def read_once() -> dict:
                 try:
-                    r = pydsdl.read_namespace(tmp / h["ns"][0], [tmp / "dep"], allow_unregulated_fixed_port_id=bool(h["allow"]))
+                    if case.get("entry") == "files":
+                        r, _transitive = pydsdl.read_files([p], [tmp / h["ns"][0]], [tmp / "dep"], allow_unregulated_fixed_port_id=bool(h["allow"]))
+                    else:
+                        r = pydsdl.read_namespace(tmp / h["ns"][0], [tmp / "dep"], allow_unregulated_fixed_port_id=bool(h["allow"]))
                     full = ".".join(h["ns"] + [h["short"]])
                     if not any(t.full_name == full and (t.version.major, t.version.minor) == (h["major"], h["minor"]) and t.fixed_port_id == h["port"] for t in r):
                         return {"res": "foreign:not-in-result", "soft_msg": str([str(t) for t in r])[:200]}
@@ -1035,7 +1232,7 @@ class RulesSuite(common.Suite):
             # (Only for message types with a plain ASCII identity; a service cannot be a field type.)
             service = any(s[0] == "marker" for s in case["stmts"])
             ident = h["ns"] + [h["short"]]
-            if also_as_dependency and out["res"] in ("ok", "invalid") and not service and all(c.isascii() and c.isidentifier() for c in ident) and len(h["ns"]) >= 1:
+            if also_as_dependency and case.get("entry") != "files" and out["res"] in ("ok", "invalid") and not service and all(c.isascii() and c.isidentifier() for c in ident) and len(h["ns"]) >= 1:
                 deprecated = any(s[0] == "deprecated" for s in case["stmts"])
                 ref = tmp / "/".join(h["ns"] + ["A0a.1.0.dsdl"])
                 if not ref.exists() and h["short"] > "A0a" and len(".".join(h["ns"] + ["A0a"])) <= 255:
@@ -1073,6 +1270,8 @@ class RulesSuite(common.Suite):
     def judge(self, case, impl):
         ok, why = rules_ok(case)
         res = impl.get("res")
+        if str(res).startswith("foreign:harness"):
+            return None
         if "via_dependency" in impl:
             return "verdict-depends-on-reach: read on its own the definition is %s, first reached as a dependency of a sibling it is %s" % (res, impl["via_dependency"])
         if ok and res != "ok":
@@ -1081,6 +1280,11 @@ class RulesSuite(common.Suite):
             odd = [c for c in case["header"]["ns"] + [case["header"]["short"]] if not c.isascii()]
             if odd and why == "type name / namespace component":
                 return "non-ascii-name-accepted: a type name / namespace component with a character outside ASCII is accepted: %s" % ascii(odd[0])
+            names = case["header"]["ns"] + [case["header"]["short"]] + [st[2] for st in case["stmts"] if st[0] in ("field", "const")]
+            ctl = [f for nm in names for f in hostile_features(nm)]
+            if ctl and why in ("type name / namespace component", "attribute name"):
+                return "control-character-name-accepted: a name with a character that is no letter, digit or underscore (%s) is accepted (%s): %s" % (
+                    ctl[0], "built through the constructors" if case.get("route") == "ctor" else "read_files" if case.get("entry") == "files" else "read_namespace", why)
             return "invalid-accepted: accepted although this rule is violated: " + why
         if not ok and res != "invalid":
             if uses_service(case) and res == "internal":
@@ -1092,7 +1296,21 @@ class RulesSuite(common.Suite):
         return "%s/%s" % (prop, desc.split(":")[0][:50])
 
     def shrink(self, case):
+        for c in self.shrink_all(case):
+            if c.get("route") != "ctor" or ctor_expressible(c):
+                yield c
+        if case.get("entry") == "files":
+            c = copy.deepcopy(case)
+            del c["entry"]
+            yield c
+
+    def shrink_all(self, case):
         st = case["stmts"]
+        if case.get("history"):
+            c = copy.deepcopy(case)
+            del c["history"]
+            c.pop("seq", None)
+            yield c
         for i in range(len(st)):
             c = copy.deepcopy(case)
             del c["stmts"][i]
@@ -1137,6 +1355,14 @@ class RulesSuite(common.Suite):
             yield "error:" + str(impl.get("soft_cls"))
         for v in case.get("violations") or []:
             yield "mutator:" + v
+        route = "constructors" if case.get("route") == "ctor" else "read_files" if case.get("entry") == "files" else "read_namespace"
+        yield "route:" + route
+        hh = case["header"]
+        for pos, nm in [("root", hh["ns"][0])] + [("nested", x) for x in hh["ns"][1:]] + [("type", hh["short"])] + [("attribute", st[2]) for st in case["stmts"] if st[0] in ("field", "const")]:
+            for f in hostile_features(nm):
+                yield "odd-character-name:%s:%s" % (pos, f.split(":")[0] + ":" + f.split(":")[2])
+                yield "odd-character:%s" % f.split(":")[1]
+                yield "odd-character-route:%s:%s" % (route, pos)
         for st in case["stmts"]:
             if st[0] == "field" and st[1][0] in ("fa", "va"):
                 cap = cap_of(st[1])
